@@ -56,6 +56,20 @@ def items(tier, seed):
                 if 3 <= len(units) <= 25 and dbn != "posc_nocat":
                     out += [{"k": "triple", "db": dbn, "qt": qt, "u": u, "v": v, "w": w}
                             for u, v, w in itertools.permutations(units, 3)]
+    # unit symbols that differ only in case (mm / Mm, mW / MW ...) are a classic source of mix-ups: always checked as pairs, both databases
+    for dbn in ("default", "posc_nocat"):
+        db = get_db(dbn)
+        for qt in db.GetQuantityTypes():
+            units = db.GetUnits(qt)
+            low = {}
+            for u in units:
+                low.setdefault(u.lower(), []).append(u)
+            for grp in low.values():
+                for u in grp:
+                    for v in grp:
+                        if u != v:
+                            out.append({"k": "pair", "db": dbn, "qt": qt, "u": u, "v": v})
+                            out.append({"k": "triple", "db": dbn, "qt": qt, "u": u, "v": units[0], "w": v})
     # seeded extras
     db = get_db("default")
     allp, allt = [], []
